@@ -506,7 +506,7 @@ class Check:
         return 1 if self.violations else 0
 
 
-def std_coq_stage(chk, prop_target, gen=True):
+def std_coq_stage(chk, prop_target, gen=True, extra_targets=()):
     """Stages 1-3 shared by every property.  Returns dict(build_ok, log)."""
     if gen:
         ok, out = gen_facts()
@@ -518,7 +518,7 @@ def std_coq_stage(chk, prop_target, gen=True):
     if bad:
         print("GATE: forbidden construct in the Coq development:\n" + "\n".join(bad))
         sys.exit(2)
-    ok, out = coq_make([prop_target + ".vo"])
+    ok, out = coq_make([prop_target + ".vo"] + [t + ".vo" for t in extra_targets])
     info = chk.theorems(os.path.join(COQ, prop_target + ".v"), ok, out)
     if not ok:
         chk.notes.append("coq build failed: " + out[-3000:])
